@@ -334,7 +334,7 @@ func main() {
 	out := map[string]any{
 		"coverage": map[string]any{"js_wasm_build": wasmCov, "calls": probes, "scenarios": scen, "conclusive_scenarios": conclusive, "inconclusive_digit_dependent": inconclusive, "unstable_measurements": unstable,
 			"distinct_requests": conclusive, "by_entry_point": byEntry, "by_history": byHistory, "samples": samples,
-			"method": "per-statement execution counters of package otp (go build -cover -covermode=atomic, runtime/coverage.ClearCounters/WriteCounters), GOMAXPROCS=1, collector off"},
+			"method": "per-statement execution counters of package otp, crypto/subtle and crypto/internal/fips140/subtle (go build -cover -covermode=atomic, runtime/coverage.ClearCounters/WriteCounters), GOMAXPROCS=1, collector off"},
 		"violations": viol,
 	}
 	json.NewEncoder(os.Stdout).Encode(out)
